@@ -3,11 +3,12 @@
    has both sides non-empty), hence a deletion adjacent to an insertion is one
    Replace — for every clock, both build modes, Myers and LCS (Patience via
    Proofs/PatienceCapture.v), and for ANY valid script through Replace.
-   The "insert sits at its latest position" clause is decided by the extracted
-   check_insert_latest on the implementation's output (reflection proved here);
-   it is not proved for the model (stated in DESIGN.md). *)
+   The "insert sits at its latest position" clause is proved as well
+   (Proofs/InsertLatest.v): for every captured op list (all algorithms, every
+   clock) and for any valid non-empty script through Compact+Replace.  The
+   extracted check_normal decides the same on the implementation's output. *)
 From Similar Require Import Model.Base Model.Utils Model.Myers Model.Hooks Model.Compact Model.Capture
-  Spec.Script Spec.SnakeSpec Check.Script Proofs.CheckScript Proofs.Replace Proofs.ReplaceLoose Proofs.Pipeline.
+  Spec.Script Spec.SnakeSpec Check.Script Proofs.CheckScript Proofs.Replace Proofs.ReplaceLoose Proofs.Pipeline Proofs.InsertLatest.
 
 Theorem c09_capture_alternating :
   forall (alg : algorithm) (dl : deadline) (dbg repair : bool) (orc : oracles) (os oe ns ne : nat),
@@ -46,3 +47,48 @@ Example c09_instance :
   | _ => False
   end.
 Proof. vm_compute. split; [reflexivity|discriminate]. Qed.
+
+(* ---------------------------------------------------------------------- *)
+(* full normal form, including: a pure insertion followed by equal items   *)
+(* sits at its latest position                                             *)
+(* ---------------------------------------------------------------------- *)
+Theorem c09_capture_normal_form :
+  forall (alg : algorithm) (dl : deadline) (dbg repair : bool) (orc : oracles) (os oe ns ne : nat)
+         (ops : list op) (c : ctr),
+    capture_diff alg dl dbg repair orc os oe ns ne = Ok (ops, c) ->
+    os <= oe -> ns <= ne -> CmpTotal (o_on orc) os oe ns ne ->
+    NormalForm (o_on orc) ops.
+Proof. exact capture_normal_form. Qed.
+Print Assumptions c09_capture_normal_form.
+
+Theorem c09_capture_insert_latest :
+  forall (alg : algorithm) (dl : deadline) (dbg repair : bool) (orc : oracles) (os oe ns ne : nat)
+         (ops : list op) (c : ctr),
+    capture_diff alg dl dbg repair orc os oe ns ne = Ok (ops, c) ->
+    os <= oe -> ns <= ne -> CmpTotal (o_on orc) os oe ns ne ->
+    InsertLatest (o_on orc) ops.
+Proof. exact capture_insert_latest. Qed.
+Print Assumptions c09_capture_insert_latest.
+
+(* any loosely valid script without empty or Replace ops (what an algorithm
+   may deliver) pushed through Compact and then Replace *)
+Theorem c09_compact_replace_normal_form :
+  forall (cmp : cmpf) (repair : bool) (os oe ns ne : nat) (ops ops' : list op),
+    OpsLoose cmp os oe ns ne ops ->
+    Forall NonEmptyOp ops ->
+    Forall (fun x : op => op_tag x <> TReplace) ops ->
+    cleanup_diff_ops cmp repair ops = Ok ops' ->
+    OpsLoose cmp os oe ns ne (capture_calls (replace_ops_out ops')) /\
+    NormalForm cmp (capture_calls (replace_ops_out ops')).
+Proof. exact compact_replace_normal_form. Qed.
+Print Assumptions c09_compact_replace_normal_form.
+
+(* the non-emptiness premise is necessary: a zero-length Insert is left in
+   front of an Equal it "matches" (outside the property's quantifier: no
+   algorithm emits empty ops, C01) *)
+Theorem c09_needs_nonempty :
+  OpsLoose il_cx_cmp 0 1 0 1 [Insert 0 0 0; Equal 0 0 1] /\
+  cleanup_diff_ops il_cx_cmp false [Insert 0 0 0; Equal 0 0 1] = Ok [Insert 0 0 0; Equal 0 0 1] /\
+  ~ InsertLatest il_cx_cmp [Insert 0 0 0; Equal 0 0 1].
+Proof. exact cleanup_insert_latest_needs_nonempty. Qed.
+Print Assumptions c09_needs_nonempty.
